@@ -9,13 +9,25 @@ LEVEL = 'exploration'
 _TOOL = 3
 
 
+PER_BYTE, BASE = 3000, 20000          # Growth!PerByte, Growth!Base
+
+
+class _WorkBudgetExceeded(BaseException):
+    """raised from the LINE callback: not an Exception, so no handler of the library swallows it"""
+
+
 def measure(cls, data):
     """(outcome, interpreter LINE events, max call depth above the entry) of cls.parse_immutable(data) - deterministic"""
     mon = sys.monitoring
     state = {'lines': 0, 'depth': 0, 'max': 0}
 
+    budget = PER_BYTE * len(data) + BASE       # Growth!Bounded: beyond this the point is a violation whatever the count would be
+
     def on_line(code, line):
         state['lines'] += 1
+        if state['lines'] > budget and not state.get('stopped'):
+            state['stopped'] = True          # once: the handler below runs monitored lines too
+            raise _WorkBudgetExceeded()
 
     def on_start(code, off):
         state['depth'] += 1
@@ -41,6 +53,8 @@ def measure(cls, data):
     try:
         try:
             cls.parse_immutable(data)
+        except _WorkBudgetExceeded:
+            out = 'work-budget-exceeded'
         except RecursionError:
             out = 'RecursionError'
         except MemoryError:
@@ -70,7 +84,7 @@ def shapes_for(seed_bytes, sizes):
         if len(pts) >= 3:
             out.append((name, pts))
     series('repeat', lambda n: seed_bytes * max(1, n // L))
-    for label, junk in (('pad-a', b'a'), ('pad-nul', b'\x00'), ('pad-ff', b'\xff'), ('pad-space', b' '), ('pad-semicolon', b';'),
+    for label, junk in () if L > 600 else (('pad-a', b'a'), ('pad-nul', b'\x00'), ('pad-ff', b'\xff'), ('pad-space', b' '), ('pad-semicolon', b';'),
                         ('pad-comma', b','), ('pad-crlf', b'\r\n'), ('pad-eq', b'='), ('pad-quote', b'"'), ('pad-a-colon', b'a:'),
                         ('pad-slash', b'a/'), ('pad-name-eq', b'a=b;'), ('pad-spf-term', b' a:x'), ('pad-word', b' mx'), ('pad-directive', b'; a=b'),
                         ('pad-list-item', b', a'), ('pad-header-line', b'\r\nX: y'), ('pad-quoted', b'"a" ')):
@@ -92,6 +106,21 @@ def shapes_for(seed_bytes, sizes):
                     pts.append((len(b), v, bytes(b)))
                 if len(pts) >= 3:
                     out.append(('declared-be%d@%d' % (width, off), pts))
+        # counts and lengths in the LAST fields of the message (trailing lists: responses, extensions, signatures), with the
+        # rest of the data kept and with the data ending right behind the declared value
+        for off in range(max(10, L - 14), L - 1):
+            for width in (4, 2):
+                if off + width > L:
+                    continue
+                for cut in (False, True):
+                    pts = []
+                    for k in (4, 7, 10, 12, 14, 15) if width == 2 else (4, 8, 12, 16, 18, 20, 22):
+                        b = bytearray(seed_bytes)
+                        b[off:off + width] = (1 << k).to_bytes(width, 'big')
+                        if cut:
+                            del b[off + width:]
+                        pts.append((len(b), 1 << k, bytes(b)))
+                    out.append(('declared-tail-be%d%s@-%d' % (width, '-cut' if cut else '', L - off), pts))
     return out
 
 
@@ -101,7 +130,7 @@ def drive(arg):
     lib = corpus.by_class()
     sizes = SIZES_THOROUGH if tier == 'thorough' else SIZES_QUICK
     events = []
-    seeds = [s for s in lib.get(cls, []) if 0 < len(s) <= 600]
+    seeds = [s for s in lib.get(cls, []) if 0 < len(s) <= 1200]
     seeds = sorted(seeds, key=len)[:(3 if tier == 'thorough' else 1)]
     for sd in seeds:
         for name, pts in shapes_for(sd, sizes):
@@ -109,6 +138,8 @@ def drive(arg):
             for size, declared, data in pts:
                 out, steps, depth = measure(cls, data)
                 points.append({'size': size, 'declared': min(declared, 2000000000), 'steps': min(steps, 2000000000), 'depth': depth, 'out': out})
+                if out == 'work-budget-exceeded':
+                    break           # the larger points of the series would only burn the same budget again
             events.append({'cls': cls.__module__.replace('cryptoparser.', '') + '.' + cls.__qualname__, 'shape': name, 'points': points,
                            'seed_hex': sd[:60].hex()})
     return events
